@@ -501,6 +501,15 @@ class FnBounds:
         l, op, r = C.cond_atom(fn, cond, label == "T")
         la = self.lin(l)
         ra = lin_const(r[1]) if isinstance(r, tuple) else self.lin(r)
+        # a test of `left` with `size_t left = capacity - offset` still valid is a test of capacity - offset
+        la_alt = None
+        l0 = fn.nodes[fn._strip0(l)]
+        if l0["k"] == "ref" and l0.get("dk") == "local":
+            dx = fn.def_expr(fn._strip0(l))
+            if dx is not None:
+                la2 = self.lin(dx)
+                if la2 is not None and len(la2[0]) == 2 and sorted(la2[0].values()) == [-1, 1]:
+                    la_alt = la2
         # predicate lemmas: f(x) true  =>  facts
         ln = fn.sn(l)
         if ln["k"] == "call" and isinstance(r, tuple) and op in ("!=", "=="):
@@ -514,6 +523,19 @@ class FnBounds:
             return F
         F = F.copy()
         one = lin_const(1)
+        if la_alt is not None:
+            # the same comparison, read on the defining expression (a - b ~ c becomes a difference constraint on a and b)
+            if op == "<=":
+                self.add_le(F, la_alt, ra)
+            elif op == "<":
+                self.add_le(F, lin_add(la_alt, one), ra)
+            elif op == ">=":
+                self.add_le(F, ra, la_alt)
+            elif op == ">":
+                self.add_le(F, lin_add(ra, one), la_alt)
+            elif op == "==":
+                self.add_le(F, la_alt, ra)
+                self.add_le(F, ra, la_alt)
         if op == "<=":
             self.add_le(F, la, ra)
         elif op == "<":
@@ -872,6 +894,7 @@ class Engine:
         self.sink_log = []
         self.lemmas = {}                    # callee name -> fn(FnBounds, call node, truth) -> [(a,b)]
         self.post = {}                      # callee name -> fn(FnBounds, Facts, call nid) -> Facts
+        self.ptr_index_stores = False       # also check `p[i] = x` through pointer parameters against cap(p) (opt-in per rule)
         self.inline = {}                    # callee name -> fn(FnBounds, call nid) -> lin
         self.entry_contracts = {}           # Function -> list of (lhs lin over param names, rhs lin)
         self.narrow_scope = None            # Function -> bool: narrowing integer conversions are obligations
@@ -1514,9 +1537,25 @@ class Engine:
         bn = f.nodes[n["base"]]
         while bn["k"] == "paren":
             bn = f.nodes[bn["sub"]]
-        # base must be an array lvalue decaying to pointer
+        # base must be an array lvalue decaying to pointer ...
         if not (bn["k"] == "cast" and bn.get("ck") == "ArrayToPointerDecay"):
-            return None
+            # ... or, for STORES, a pointer whose capacity is a known term (a `char *buf, size_t capacity` parameter pair):
+            # buf[i] = x needs (i + 1) * elemsize <= cap(buf)
+            par = f.parents().get(nid)
+            pn = f.nodes.get(par, {})
+            is_store = pn.get("k") == "bin" and pn["op"] in ("=", "+=", "-=", "|=", "&=") and pn["l"] == nid
+            if not is_store or not n.get("sz") or not self.ptr_index_stores:
+                return None
+            b0 = f.nodes[f._strip0(n["base"])]
+            if not (b0["k"] == "ref" and b0.get("dk") == "param"):
+                return None
+            cap = fb.capof(n["base"])
+            i = fb.lin(n["idx"])
+            if cap is None or i is None:
+                return None
+            esz = n["sz"]
+            size = ({t: c * esz for t, c in i[0].items()}, (i[1] + 1) * esz)
+            return (size, cap, self._origin(f, nid, "%s[%s]" % (f.show(n["base"])[:40], f.show(n["idx"])[:30])))
         arr = f.nodes[bn["sub"]]
         if "sz" not in arr or "sz" not in n or not n["sz"]:
             return None
